@@ -138,10 +138,19 @@ func c09World(t *testing.T, r *simcore.Run) any {
 			r.Probe("mixed-address-families")
 		}
 	}
+	withExt := 0 // bit 0: hop-by-hop, bit 1: end-to-end extension header on the next request
 	// wrap puts an NTP payload on the wire towards the listeners
 	wrap := func(payload []byte, srcIP string, srcPort uint16, note string) *simnet.Datagram {
 		if overSCION {
 			raw := buildSCION(scCliIA, scSrvIA, srcIP, scSrvIP, srcPort, scSvcPort, segs, 0, payload)
+			if withExt != 0 {
+				// extension headers the listener has no use for change nothing: same replies, and
+				// replies that are plain SCION/UDP again
+				if x := scWithExtensions(parseSCION(raw), withExt&1 != 0, withExt&2 != 0); x != nil {
+					raw = x
+					r.Probe("request-with-extension-headers")
+				}
+			}
 			// a border router hands a packet either to the service's own port or to the end-host
 			// port 30041, where the server runs a listener of its own: both answer in place
 			underlay := scSvcPort
@@ -295,6 +304,10 @@ func c09World(t *testing.T, r *simcore.Run) any {
 				}
 			}
 			viaEndhost = overSCION && tp.Bool(1, 4, "via-endhost-port")
+			withExt = 0
+			if overSCION && tp.Bool(1, 5, "ext-headers") {
+				withExt = 1 + tp.Intn(3, "which-ext")
+			}
 			if viaEndhost {
 				r.Probe("via-endhost-port")
 			}
